@@ -385,7 +385,7 @@ def count_audit_visits(data):
 
 def audit_recomputation(data, limit_factor=20, timeout=15.0):
     """is the time of this archive spent re-auditing shared nodes?  Counts get_unsafe_set invocations during
-    get_untrusted_types in a forked child and stops as soon as they exceed `limit_factor` x the number of states in the
+    get_untrusted_types and visualize in a forked child and stops as soon as they exceed `limit_factor` x the number of states in the
     schema (+5000): a walk that visits every node once per reference stays far below that.  -> (True, states, visits) | (False, ..)"""
     import os
     import signal
@@ -425,7 +425,16 @@ def audit_recomputation(data, limit_factor=20, timeout=15.0):
 
                         setattr(k, "get_unsafe_set", counting)
             try:
-                get_untrusted_types(data=data)
+                try:
+                    get_untrusted_types(data=data)
+                except _Stop:
+                    raise
+                except Exception:
+                    pass
+                # visualize asks every row for is_safe(), i.e. walks the audit of the row's subtree again: the same call site
+                from skops.io import visualize
+
+                visualize(data, sink=lambda nodes, show, **kw: [None for _ in nodes])
                 out = f"done {n[0]}"
             except _Stop:
                 out = f"exceeded {n[0]}"
